@@ -247,8 +247,8 @@ def check_scenario(name, power_loss_expected=True):
     out = r.stdout.strip().splitlines()
     if not out or out[-1].startswith('ERROR'):
         return {'name': name, 'error': 'driver: ' + (out[-1] if out else r.stderr[-300:]), 'events': ev[:50]}
-    m = re.match(r'crash=(\S+) pl=(\S+) final=(.*)$', out[-1])
-    fin = parse_final(m.group(3))
+    m = re.match(r'crash=(\S+) pl=(\S+) mono=(\S+) c13=(\S+) final=(.*)$', out[-1])
+    fin = parse_final(m.group(5))
     els, eps, ers = expected_final(run, keys)
     got_ls = sorted(f'{k}:{d}' for k, d, _ in fin['L'])
     got_ps = sorted(f'{k}:{d}' for k, d, _ in fin['P'])
@@ -261,18 +261,28 @@ def check_scenario(name, power_loss_expected=True):
     if sorted(fin['R']) != sorted(ers):
         diffs.append(f'index rows differ: model {sorted(fin["R"])[:3]} vs disk {sorted(ers)[:3]}')
     unsynced = [k for k, d, s in fin['P'] if d != s]
-    return {'name': name, 'crash': m.group(1), 'pl': m.group(2), 'world_diffs': diffs, 'n_events': len(ev), 'ignored': ignored, 'unknown': unknown[:5],
+    return {'name': name, 'crash': m.group(1), 'pl': m.group(2), 'mono': m.group(3), 'c13': m.group(4), 'world_diffs': diffs, 'n_events': len(ev), 'ignored': ignored, 'unknown': unknown[:5],
             'events': ev, 'unsynced_packs_at_end': unsynced}
+
+
+MONO_SCENARIOS = ['add', 'add_flat', 'add_dup', 'add_big', 'pack', 'pack_clean', 'pack_small', 'pack_auto', 'pack_nofsync', 'pack_nofsync_clean',
+                  'pack_novalidate', 'clean', 'pack_then_clean', 'loosen', 'topack', 'topack_multi', 'import_same', 'import_same_stream']
+NOREPACK_SCENARIOS = MONO_SCENARIOS + ['topack_nofsync', 'topack_nh', 'topack_nh_rt0', 'import_diff', 'import_diff_stream']
 
 
 def check_traces(ck, pid, baselines=None, names=None):
     import scen
     from concurrent.futures import ThreadPoolExecutor
-    names = names or [n for n in (baselines or {}) if n not in ('clean_dups',)]
+    names = names or list(baselines or {})
+    names = [n for n in names if n not in scen.DAMAGED_PRE]
     with ThreadPoolExecutor(common.NPROC) as ex:
         results = list(ex.map(check_scenario, names))
-    bad_sem, bad_mon, bad_pl = [], [], []
+    bad_sem, bad_mon, bad_pl, bad_mono, bad_c13, bad_fd = [], [], [], [], [], []
     total_events = 0
+
+    def at(r, key):
+        n = int(r[key].split('@')[1])
+        return f"{r['name']}: rejected at event {n} ({r['events'][n - 1] if 0 < n <= len(r['events']) else 'initial state'})"
     for r in results:
         if 'error' in r:
             bad_sem.append(f"{r['name']}: {r['error'][:200]}")
@@ -281,20 +291,30 @@ def check_traces(ck, pid, baselines=None, names=None):
         if r['world_diffs'] or r['unknown']:
             bad_sem.append(f"{r['name']}: {r['world_diffs']} unknown events {r['unknown']}")
         if r['crash'] != 'ok':
-            bad_mon.append(f"{r['name']}: monitor rejects crash point {r['crash']} (event {r['events'][int(r['crash'].split('@')[1]) - 1] if '@' in r['crash'] and int(r['crash'].split('@')[1]) > 0 else 'initial state'})")
+            bad_mon.append(at(r, 'crash'))
         if r['pl'] != 'ok' and r['name'] not in scen.NON_DEFAULT_FSYNC:
-            n = int(r['pl'].split('@')[1])
-            bad_pl.append(f"{r['name']}: monitor rejects the power-loss image at crash point {n} (after event {r['events'][n - 1] if n > 0 else 'initial'})")
-    ck.cov['traces_validated_against_impl'] = len(results)
-    ck.cov['trace_events'] = total_events
+            bad_pl.append(at(r, 'pl'))
+        if r['name'] in MONO_SCENARIOS and r['mono'] != 'ok':
+            bad_mono.append(at(r, 'mono'))
+        if r['name'] in NOREPACK_SCENARIOS and r['c13'] != 'ok':
+            bad_c13.append(at(r, 'c13'))
+    ck.cov['traces_validated_against_impl'] = ck.cov.get('traces_validated_against_impl', 0) + len(results)
+    ck.cov['trace_events'] = ck.cov.get('trace_events', 0) + total_events
     ck.obligation('correspondence: Store.apply_ev over the intercepted trace of each scenario ends in exactly the folder read raw (event semantics vs OS/SQLite), no unknown event',
                   not bad_sem, '; '.join(bad_sem)[:1200], kind='correspondence')
-    if pid in ('C05', 'C17', 'C03', 'C13'):
+    if pid in ('C05', 'C17', 'C03', 'C02', 'C09', 'C11', 'C10', 'C14', 'C01'):
         ck.obligation('discipline: verified monitor (Store.monitor / monitor_sound) accepts every crash point of every implementation trace',
                       not bad_mon, '; '.join(bad_mon)[:1200], kind='correspondence')
     if pid == 'C06':
         ck.obligation('discipline: verified monitor accepts the power-loss image of every crash point of every implementation trace (default fsync settings)',
                       not bad_pl, '; '.join(bad_pl)[:1200], kind='correspondence')
-    if results and 'events' in results[0]:
-        ck.sample({'scenario': results[0]['name'], 'model_events': [e[:70] for e in results[0]['events'][:25]]})
+    if pid in ('C04', 'C08', 'C15'):
+        ck.obligation('discipline: every step of the writer/packer traces satisfies the side conditions of MonoStep.mono_step (all_ok_b)',
+                      not bad_mono, '; '.join(bad_mono)[:1200], kind='correspondence')
+    if pid == 'C13':
+        ck.obligation('discipline: every step of every repack-free implementation trace keeps referenced pack bytes (c13_all_b / c13_all_sound)',
+                      not bad_c13, '; '.join(bad_c13)[:1200], kind='correspondence')
+    good = [r for r in results if 'events' in r]
+    if good:
+        ck.sample({'scenario': good[0]['name'], 'model_events': [e[:70] for e in good[0]['events'][:25]]})
     return results
